@@ -6,11 +6,13 @@ import m4
 import m4check
 from vlib import *
 
-HOSTS = [b"a.b.c", b"*.b.c", b"b.c", b"*.c", b"x.a.b.c", b"single", b"[::1]", b"[2001:db8::1]", b"example.com", b"*.example.com"]
+HOSTS = [b"a.b.c", b"*.b.c", b"b.c", b"*.c", b"x.a.b.c", b"single", b"[::1]", b"[2001:db8::1]", b"example.com", b"*.example.com",
+         b"A.b.C", b"*.B.c"]      # spelled with capitals: the table is keyed by the spelling given at deploy time
 PREFIXES = [b"/", b"/api", b"/apiary", b"/api/v1", b"/api/v1/", b"api", b"/a", b"/a/b", b"//x", b"/x//y", b"/app/"]
 REQ_HOSTS = [b"a.b.c", b"a.b.c:8080", b"z.b.c", b"b.c", b"b.c:80", b"x.a.b.c", b"y.x.a.b.c", b"single", b"single:1", b"other",
              b"[::1]", b"[::1]:80", b"[2001:db8::1]:8443", b"[2001:db8::1]", b"example.com", b"www.example.com:443", b".b.c", b"c", b"",
-             b"A.B.C", b"a.b.c.", b"a.b.c:", b":80"]
+             b"A.B.C", b"a.b.c.", b"a.b.c:", b":80",
+             b"A.b.C", b"A.b.C:8080", b"z.B.c", b"z.B.c:443"]
 REQ_PATHS = [b"/", b"/api", b"/api/", b"/apiary", b"/apiary/x", b"/api/v1", b"/api/v1/users", b"/api/v10", b"/apix", b"/a", b"/a/",
              b"/a/b", b"/a/bc", b"/a/b/c", b"//x", b"//x/y", b"/x//y", b"/x//y/z", b"/x/y", b"/app", b"/app/", b"/app/z", b"/ap",
              b"/api%2Fv1", b"/%61pi", b"/api/../x", b"/API"]
@@ -46,7 +48,7 @@ def run(tier, seed):
     res = Result(prop, tier, seed)
     work = Work(prop)
     try:
-        ok, blog = coq_build(["props/C04.vo", "corr/M4corr.vo"])
+        ok, blog = coq_build(["props/C04.vo", "corr/M4corr.vo", "corr/C04cmd.vo"])
         proofs_ok, pa = proof_obligations(work, res, "C04.v", ok, blog)
         rnd = random.Random(seed)
         n_tables = 25 if tier == "quick" else 400
@@ -85,7 +87,7 @@ def run(tier, seed):
         results = []
         if harness_ok and ok:
             terms = [m4.history_term(h, m, o) for h, m, o in zip(hists, mats, outs)]
-            results = m4check.coq_run(work, terms, "(fun h => (%s h, c04_ok h))" % m4check.MIS, shard=6, tag=prop)
+            results = m4check.coq_run(work, terms, "(fun h => (%s h, c04_ok h && c04_cmd_ok h))" % m4check.MIS, shard=6, tag=prop)
         statuses = {}
         for o in outs:
             for r in o["results"]:
@@ -108,7 +110,8 @@ def run(tier, seed):
         js = lambda x: json.loads(json.dumps(x, default=lambda b: b.decode("latin1")))
         if mon_fail:
             i = mon_fail[0]
-            res.violation("monitor-%d" % i, {"property": prop, "what": "a request was not served by the service the routing rule selects",
+            res.violation("monitor-%d" % i, {"property": prop, "what": "a request was not served by the service the routing rule selects (for the table in the state file: c04_ok; for the "
+                                                     "bindings as commanded by the successful deploys / removes of the history: c04_cmd_ok)",
                                              "history": js(hists[i]), "requests": js(mats[i][-1]), "mismatches": results[i][0],
                                              "seed": seed, "tier": tier})
         elif disagree or not harness_ok or not proofs_ok:
